@@ -137,13 +137,19 @@ _CHECK = None
 
 def _worker_batch(args):
     seed, tier, lo, hi, timeout = args
-    faulthandler.dump_traceback_later(timeout, exit=True)
     chk = _CHECK
+    per_run = getattr(chk, "per_run_timeout", None)
+    if not per_run:
+        faulthandler.dump_traceback_later(timeout, exit=True)
     agg = dict(
         n=0, verdicts={}, steps=0, faults={}, probes={}, cov=set(), hist=set(), violations=[], samples=[],
         digests=[], discards={}, errors=[],
     )
     for i in range(lo, hi):
+        if per_run:
+            # wall-clock backstop for ONE run: a loop the step clock cannot see (C level, or generator finalisers) ends
+            # this worker; the parent drops the batch, counts it as lost and carries on with a fresh pool
+            faulthandler.dump_traceback_later(per_run, exit=True)
         try:
             case = chk.gen(seed, i, tier)
             out = chk.run(case)
@@ -195,7 +201,7 @@ def explore(chk: Check, tier: str, seed: int, workers: int, runs=None, wall=None
     chk.setup()
     t0 = time.time()
     total = dict(n=0, verdicts={}, steps=0, faults={}, probes={}, cov=set(), hist=set(), violations=[], samples=[],
-                 digests=[], discards={}, errors=[], scheduled=0, cut_short=False)
+                 digests=[], discards={}, errors=[], scheduled=0, cut_short=False, lost_batches=[], suspects=set())
     batches = [(seed, tier, lo, min(lo + cfg["batch"], cfg["runs"]), cfg.get("batch_timeout", 600))
                for lo in range(0, cfg["runs"], cfg["batch"])]
 
@@ -225,29 +231,58 @@ def explore(chk: Check, tier: str, seed: int, workers: int, runs=None, wall=None
             total["scheduled"] += 1
             merge(_worker_batch(b))
     else:
+        from concurrent.futures.process import BrokenProcessPool
+
         ctx = multiprocessing.get_context("fork")
-        with ProcessPoolExecutor(max_workers=workers, mp_context=ctx) as ex:
-            pending = set()
-            it = iter(batches)
-            exhausted = False
-            while True:
-                while not exhausted and len(pending) < workers * 2:
-                    if time.time() - t0 > cfg["wall"]:
-                        total["cut_short"] = True
-                        exhausted = True
+        it = iter(batches)
+        exhausted = False
+        retry = []
+        while True:
+            ex = ProcessPoolExecutor(max_workers=workers, mp_context=ctx)
+            pending = {}
+            broken = False
+            try:
+                while True:
+                    # suspects are re-run one at a time, so that a second death names the guilty batch alone
+                    while (retry or not exhausted) and len(pending) < (1 if retry else workers * 2):
+                        if not retry and time.time() - t0 > cfg["wall"]:
+                            total["cut_short"] = True
+                            exhausted = True
+                            break
+                        if retry:
+                            b = retry.pop()
+                        else:
+                            try:
+                                b = next(it)
+                            except StopIteration:
+                                exhausted = True
+                                break
+                            total["scheduled"] += 1
+                        pending[ex.submit(_worker_batch, b)] = b
+                    if not pending:
                         break
+                    done = next(as_completed(list(pending)))
+                    b = pending.pop(done)
                     try:
-                        b = next(it)
-                    except StopIteration:
-                        exhausted = True
+                        merge(done.result())
+                    except BrokenProcessPool:
+                        # a worker died (per-run wall-clock backstop or a crash of the interpreter): every batch that was
+                        # in flight is re-run once in a fresh pool, one batch per task, so that only the guilty one is lost
+                        broken = True
+                        for fut, bb in list(pending.items()) + [(done, b)]:
+                            if bb[1:4] in total["suspects"]:
+                                total["lost_batches"].append([bb[2], bb[3]])
+                            else:
+                                total["suspects"].add(bb[1:4])
+                                retry.append(bb)
+                        pending = {}
                         break
-                    pending.add(ex.submit(_worker_batch, b))
-                    total["scheduled"] += 1
-                if not pending:
-                    break
-                done = next(as_completed(pending))
-                pending.discard(done)
-                merge(done.result())
+            finally:
+                ex.shutdown(wait=False, cancel_futures=True)
+            if not broken:
+                break
+            if len(total["lost_batches"]) > max(3, len(batches) // 20):
+                break
     total["wall_s"] = time.time() - t0
     total["violations"].sort(key=lambda v: (v["size"], v["run"]))
     total["samples"].sort(key=lambda s: s["run"])
@@ -323,6 +358,7 @@ def write_evidence(chk: Check, tier, seed, total, n_viol, known_hits, extra=None
         distinct_coverage_keys=len(total["cov"]),
         coverage_keys_sample=sorted(total["cov"])[:60],
         harness_errors=len(total["errors"]),
+        lost_batches=len(total["lost_batches"]),
         cut_short_by_wall_clock=total["cut_short"],
         components_real=chk.components_real,
         components_stub=chk.components_stub,
@@ -350,6 +386,13 @@ def run_check(chk: Check, tier: str, seed: int, workers: int, runs=None, wall=No
     print(f"[{chk.id}] runs={total['n']} wall={total['wall_s']:.1f}s ({rate * 3600:.0f}/h) verdicts={total['verdicts']} "
           f"steps={total['steps']} distinct_histories={len(total['hist'])} cov_keys={len(total['cov'])}", flush=True)
     print(f"[{chk.id}] faults_fired={total['faults']} probes={total['probes']} discards={total['discards']}", flush=True)
+    if total["lost_batches"]:
+        print(f"[{chk.id}] LOST-BATCHES: {len(total['lost_batches'])} batch(es) {total['lost_batches'][:5]} were dropped because a "
+              f"worker died twice on them (wall-clock backstop for a single run, or an interpreter crash); their runs are "
+              f"not counted", flush=True)
+        if len(total["lost_batches"]) > max(3, total["scheduled"] // 20):
+            print(f"[{chk.id}] HARNESS-ERROR: too many lost batches")
+            return 2
     if total["errors"]:
         e = total["errors"][0]
         print(f"[{chk.id}] HARNESS-ERROR in run {e['run']}: {e['error']}\n{e['tb']}", flush=True)
